@@ -530,6 +530,14 @@ def run_check(mod, prop_id, tier, seed, replay=None):
                 break
     if ctx.driver:
         ctx.driver.close()
+    # self-check of the harness: predicate families the module says it exercises on every run must have run at least
+    # once (a branch that silently never executes is a hole in the check, not evidence); reported, never an alarm
+    dead = []
+    if harness_error is None and not replay and build.get("driver_ok") and not failed_files:
+        dead = [k for k in getattr(mod, "EXPECT_COUNTS", []) if not any((kk == k or kk.startswith(k)) and v for kk, v in ctx.dist.items())]
+        if dead:
+            ctx.notes.append("HARNESS-WARNING: predicate families that did not run: " + ", ".join(dead))
+            sys.stderr.write(f"HARNESS-WARNING [{prop_id}] predicate families that did not run: {dead}\n")
     # ---- verdict ----
     os.makedirs(os.path.join(ROOT, "replays"), exist_ok=True)
     os.makedirs(os.path.join(ROOT, "evidence"), exist_ok=True)
@@ -559,7 +567,7 @@ def run_check(mod, prop_id, tier, seed, replay=None):
         "translator_sites": {s: build["sites"].get(s) for s in needed_sites},
         "evaluations": ctx.evaluations, "distinct_nontrivial": len(ctx.distinct),
         "rule": getattr(mod, "RULE", ""), "samples": jsonable(ctx.samples) or [{"theorems": props["theorems"][:5]}],
-        "generator_distribution": ctx.dist, "notes": ctx.notes,
+        "generator_distribution": ctx.dist, "notes": ctx.notes, "predicate_families_not_run": dead,
         "correspondence_failures": len(ctx.tie_failures), "known_findings_hit": jsonable(ctx.known_hits),
         "build": {"wall_s": build.get("wall_s"), "failed_files": failed_files},
     }
